@@ -28,7 +28,10 @@ func init() {
 }
 
 func runC15(c *core.Ctx) {
-	c15BucketPath(c)
+	c15BucketPath(c, "C15.bucketpath")
+	if sp := c.P.Pkg("services/storage"); sp != nil {
+		c15Rules5(c, sp)
+	}
 	c15TxHandle(c)
 	c.Rule("C15.txerr", "A10: in every transaction body of services/storage an error of tx.Put/Delete/Get/List/Exists is not discarded and, where found non-nil, makes the body return a non-nil error")
 	c.Rule("C15.txwrap", "A2: DoUpdate begins a transaction, defers Rollback, runs the body, returns its error without committing, commits only after a nil error; DoView defers Rollback and never commits")
@@ -699,6 +702,14 @@ func c15DoList(c *core.Ctx, pkg *packages.Package) {
 		if !counted || !(strings.Contains(cmpKey, "++") || strings.Contains(cmpKey, "+ 1")) {
 			bad = true
 			c.Fail("C15.dolist", "DoListFunc#counts-matches", offLit.Pos, "the value compared with the offset (%s) is not a counter incremented for this matching entry: the offset is applied to positions in the whole index listing instead of positions among the matches, so pages repeat or skip entries whenever a pattern is given", cmpKey)
+			continue
+		}
+		// the counter has been incremented for this entry already (1-based): the entry lies beyond the offset exactly when
+		// offset < counter. The other spelling, counter < offset, puts the entry with counter == offset on the wrong side
+		// (seed C14-15-r5: every page with an offset starts one entry early and the last entry is never returned).
+		if offLit.Name == "before" {
+			bad = true
+			c.Fail("C15.dolist", "DoListFunc#boundary", offLit.Pos, "the counter, already incremented for the entry, is compared with the offset as %s: the entry whose count equals the offset is returned although it belongs to the previous page — pages overlap by one and the last entry of the listing is never returned (Open's start-up loop pages through the tasks by 100: the last enabled task is never started)", offLit.Key)
 			continue
 		}
 		beyond := (offLit.Name == "beyond" && offLit.Val) || (offLit.Name == "before" && !offLit.Val)
